@@ -268,6 +268,8 @@ impl<'tera> VirtualMachine<'tera> {
                         } else {
                             match start.as_i128() {
                                 Some(n) => Some(n),
+                                // a u128 above i128::MAX is past any possible length
+                                None if start.is_u128() => Some(i128::MAX),
                                 None => rendering_error!(
                                     format!(
                                         "Slice start must be an integer, got `{}`",
@@ -284,6 +286,8 @@ impl<'tera> VirtualMachine<'tera> {
                         } else {
                             match end.as_i128() {
                                 Some(n) => Some(n),
+                                // a u128 above i128::MAX is past any possible length
+                                None if end.is_u128() => Some(i128::MAX),
                                 None => rendering_error!(
                                     format!("Slice end must be an integer, got `{}`", end.name()),
                                     end_span
@@ -297,6 +301,8 @@ impl<'tera> VirtualMachine<'tera> {
                         } else {
                             match step.as_i128() {
                                 Some(n) => Some(n),
+                                // a u128 above i128::MAX is past any possible length
+                                None if step.is_u128() => Some(i128::MAX),
                                 None => rendering_error!(
                                     format!("Slice step must be an integer, got `{}`", step.name()),
                                     step_span
